@@ -250,11 +250,9 @@ def observe(run, shoot, sigbin, modname, pkgs):
             if status != 0:
                 continue
             if errs:
-                mine = ".shootnew.%s.go" % sd["name"].lower()
-                own = [e for e in errs if mine in e]
-                generated = [e for e in errs if ".shootnew." in e]
-                o["status"] = 3 if (own or not generated) else 5
-                o["errors"] = own or errs[:3]
+                if "_attr" not in pkg:
+                    pkg["_attr"] = ctorlib.attribute_errors(mod / pkg["name"], [x["name"] for x in pkg["structs"]], errs)
+                o["status"], o["errors"] = ctorlib.status_from_errors(sd["name"], *pkg["_attr"])
                 continue
             st = info["structs"].get(sd["name"])
             if st is None or ("New" + sd["name"]) not in info["funcs"]:
